@@ -396,8 +396,12 @@ def check(pid, tier, seed):
                        "note": "in two-object graphs only the copy/move/assign/destroy edges are to be covered; single-object edges are covered in the one-object graphs", "drift": drifts[:5], "projection": projecting},
         "model_checks": mcs, "graph_dumps": dumps, "trace_validation": tstats,
     }
+    extra_cov = None
+    if tier == "thorough":   # the neighbouring specification module that no property speaks about (SPEC-NOTEs only)
+        from lib import extrarun
+        extra_cov = {"spec_growth": extrarun.summary("iters", tier, seed)}
     rc = verdict.finish()
-    common.write_evidence(pid, tier, seed, "model_checking", cov, ASSUMPTIONS, time.time() - t0, len(verdict.violations))
+    common.write_evidence(pid, tier, seed, "model_checking", cov, ASSUMPTIONS, time.time() - t0, len(verdict.violations), extra=extra_cov)
     return rc
 
 
